@@ -11,6 +11,9 @@ for mp in sorted(glob.glob(os.path.join(VERIF, "seeded", "*", "meta.json"))):
     if not n.startswith(pref):
         continue
     m = json.load(open(mp))
+    if m.get("not_targeted"):
+        print(n, "| not targeted:", m["not_targeted"][:100], flush=True)
+        continue
     if m.get("superseded"):
         print(n, "| superseded:", m["superseded"][:100], flush=True)
         continue
